@@ -71,3 +71,19 @@ Theorem C17_upwind_additive_fixed_direction : forall (F : FieldOps) (L : FieldLa
   upwAW F m (fun a c => kadd F (kmul F k (u1 a c)) (u2 a c)) uup a c = kadd F (kmul F k (upwAW F m u1 uup a c)) (upwAW F m u2 uup a c).
 Proof. exact upw_linear_in_u. Qed.
 Print Assumptions C17_upwind_additive_fixed_direction.
+
+(* solution level: K*x solves the system assembled from the rescaled data, for every grid class, every term list
+   (TVD corrections enter as right-hand-side vectors scaled like K/T; that the code's TVD vector itself scales this way
+   holds unless a non-zero gradient falls below _fsign's absolute threshold 1e-16 -- exercised on the code, not proved) *)
+From PFV Require Import ConservThy TermsThy SolverThy ScalingSolveThy Examples.
+Theorem C17_solution_scales : forall (F : FieldOps) (L : FieldLaws F) (Lc Tc Kc : F), Lc <> k0 F -> Tc <> k0 F ->
+  forall (m : Mesh F), stencil_ok F m -> (forall c, interior F m c = true -> fac_ok F m c) ->
+  forall (bc : BCs F), bc_ok F m bc ->
+  forall (ts : list (term F)) (x : cvar F), dts_ok F ts ->
+  is_solution F m bc ts x ->
+  is_solution F (scale_mesh F Lc m) (scale_bcs F Lc Kc bc) (map (scale_term F Lc Tc Kc) ts) (scale_field F Kc x).
+Proof. intros F L Lc Tc Kc HL HT m Hok Hfac bc Hbc ts x Hd Hs. exact (solution_scales F L Lc Tc Kc HL HT m Hok Hfac bc Hbc ts x Hd Hs). Qed.
+Print Assumptions C17_solution_scales.
+Example C17_nonvacuous : stencil_ok QcOps ex_C2 /\ bc_ok QcOps ex_C2 ex_bc
+  /\ (forall c, interior QcOps ex_C2 c = true -> fac_ok QcOps ex_C2 c).
+Proof. split; [exact ex_C2_stencil_ok|split; [exact ex_C2_bc_ok|exact ex_C2_fac_ok]]. Qed.
